@@ -377,7 +377,19 @@ func execute(r *mon.Report, rc runCfg) outcome {
 	steps := 0
 	if cmd != nil {
 		refresh()
+		if rc.mode == "del-stuck" {
+			// every replacement comes up, but the API server keeps refusing the deletion of the candidates (a webhook that is
+			// down): the queue retries until its deadline and then has to give the candidates back
+			e.API.AddFault(&world.Fault{AtCall: 1, Sticky: true, Kind: "500", Match: func(verb, kind, caller string) bool { return verb == "delete" && kind == "NodeClaim" }})
+		}
 		vanished, stalled, candGone := false, false, false
+		// del-stuck: the queue's delete attempts back off in real time (client-go retry), so it gets to try only once, after
+		// the retry deadline has passed
+		pastDeadline := func() {
+			e.Clock.Step(61 * time.Minute)
+			stalled = true
+			r.Inc("candidate_deletion_refused_until_the_retry_deadline")
+		}
 		for steps = 0; steps < 40 && !crashed; steps++ {
 			if rc.mode == "cand-vanish" && !candGone && steps >= 1 && len(cmd.Candidates) >= 2 {
 				// a candidate that is not the last one disappears on its own while the command waits (spot interruption,
@@ -410,6 +422,9 @@ func execute(r *mon.Report, rc runCfg) outcome {
 			}
 			switch x := srng.Intn(10); {
 			case x < 4:
+				if rc.mode == "del-stuck" && allInit && !stalled {
+					pastDeadline()
+				}
 				queueStep()
 			case x < 8 && !allInit:
 				c := reps[srng.Intn(len(reps))]
@@ -456,6 +471,15 @@ func execute(r *mon.Report, rc runCfg) outcome {
 		}
 		// drain: finish what can be finished
 		for i := 0; i < 8 && !crashed && len(d.Queue.GetCommands()) > 0; i++ {
+			if rc.mode == "del-stuck" && !stalled {
+				for _, c := range reps {
+					for k := 0; k < 6 && !c.dead && c.stage != world.StageInitialized; k++ {
+						advance(c)
+					}
+				}
+				_ = e.SyncState()
+				pastDeadline()
+			}
 			if rc.mode != "stall" {
 				for _, c := range reps {
 					advance(c)
@@ -627,7 +651,7 @@ func run(r *mon.Report, tier string, idx int, rng *rand.Rand) {
 	_, kinds, stride := sizes(tier)
 	seed := rng.Int63()
 	script := rng.Int63()
-	mode := []string{"normal", "late", "vanish", "stall", "cand-vanish", "multi-repl", "vanish", "stall"}[idx%8]
+	mode := []string{"normal", "late", "vanish", "stall", "cand-vanish", "multi-repl", "del-stuck", "stall"}[idx%8]
 	base := execute(r, runCfg{mode: mode, seed: seed, idx: idx, script: script})
 	r.Eval()
 	if !base.startedCmd {
